@@ -237,7 +237,7 @@ def run_case(desc):
                 keys.append(mapgen.signature(case))
                 if sample is None:
                     sample = {"case": mapgen.describe(case), "coordinate_dependencies": {o: sorted(map(list, d)) for o, d in coord_deps(case).items()}}
-    return v.result(keys=keys, sample=sample if desc["start"] % 80 == 0 else None)
+    return v.result(evaluations=v.counters.get("datasets_built", 0), keys=keys, sample=sample if desc["start"] % 80 == 0 else None)
 
 
 def finalize(agg, tier, seed):
